@@ -23,6 +23,7 @@ type Period struct {
 	Writes    int    `json:"writes"`       // some traffic while relisting
 	FailAt    int    `json:"fail_at,omitempty"`   // > 0: that list call fails with FailKind
 	FailKind  string `json:"fail_kind,omitempty"`
+	WatchFaults bool `json:"watch_faults,omitempty"` // watch streams end and connects fail while relisting goes on (the retry timer and the relist reset interleave)
 	BusyCostUs int   `json:"busy_cost_us,omitempty"` // > 0: the root filter costs this much per object and a writer keeps the watch saturated (two writes per cost) for the whole run: list results must still be taken
 	Sim       SimCfg `json:"sim"`
 }
@@ -62,6 +63,7 @@ func genC13(g GenCtx) interface{} {
 		sc.FailAt = 1 + rng.Intn(sc.Periods)
 		sc.FailKind = pick(rng, "error", "error-typed-nil", "error-with-list", "error-with-full-list", "error-timeout", "error-canceled", "error-canceled-bare", "error-deadline-bare", "error-notrunning", "error-notrunning-wrapped")
 	}
+	sc.WatchFaults = rng.Intn(4) == 0
 	busy := g.Idx%10 == 7
 	if busy {
 		sc.PeriodMs = pickInt(rng, 50, 100)
@@ -96,8 +98,15 @@ func runC13(sci interface{}) {
 	srv := world.NewServer("pod")
 	srv.ListLatency = [2]time.Duration{ms(sc.LatPreMs), ms(sc.LatPostMs)}
 	srv.VaryLatency = sc.VaryLat
+	if sc.WatchFaults {
+		srv.F = world.NewFaults(map[string]world.Fault{
+			"watch-close-idle": {Budget: 3, Denom: 2}, "watch-close-after-burst": {Budget: 2, Denom: 2},
+			"watch-connect-error": {Budget: 2, Denom: 3}, "watch-expired-frame": {Budget: 1, Denom: 3}})
+	}
 	if sc.FailAt > 0 {
-		srv.F = world.NewFaults(nil)
+		if !sc.WatchFaults {
+			srv.F = world.NewFaults(nil)
+		}
 		srv.F.ListScript[sc.FailAt] = sc.FailKind
 	}
 	rootFilter := world.FilterSpec{}
